@@ -83,6 +83,18 @@ def gen(ctx):
                             rule="hash:2:%d:%d:0" % (rng.choice([2, 3, 5]), rng.randint(0, 1)),
                             T=rng.randint(2, 4), memo=rng.choice(MEMOS)))
         yield dict(kind="seq", seq=seq)
+    for _ in range(ctx.n(160, 1600)):
+        # one rule OBJECT reused across calls on the SAME grid shape with different radii / dtypes / neighbourhoods
+        R, C = rng.choice([(3, 4), (4, 4), (5, 5), (6, 6), (3, 3)])
+        rule = rng.choice(["hash:2:3:1:0", "hash:2:5:0:0", "total:2:%d" % rng.getrandbits(16)])
+        nb0 = rng.choice(["moore", "vn"])
+        seq = []
+        for _ in range(rng.randint(2, 4)):
+            g = rng.choice([grid(rng, R, C, 2, 0), [[0] * C for _ in range(R)], [[int(i == R // 2 and j == C // 2) for j in range(C)] for i in range(R)]])
+            seq.append(dict(kind="ev2", hist=[g], dtype=rng.choice(["int32", "int64", "int8"]), scale=1,
+                            r=rng.choice([0, 1, 2, min(R, C, 3)]), nb=nb0 if rng.random() < 0.7 else rng.choice(["moore", "vn"]),
+                            rule=rule, T=rng.randint(2, 3), memo=rng.choice(MEMOS)))
+        yield dict(kind="seq", seq=seq, shared_rule=1)
     for _ in range(ctx.n(30, 200)):
         c = rand_case(rng)
         c["memo"] = rng.choice(["bad:Recursive", "bad:None", "bad:2", "bad:x", "bad:memo"])
@@ -98,12 +110,37 @@ def line(c):
 
 def impl(c):
     if c["kind"] == "seq":
+        if c.get("shared_rule"):
+            from .. import fmt
+            return "|".join(fmt.err(r.exc) if r.exc is not None else "ok grids=" + fmt.hist(ev2.scaled(r.res, x))
+                            for x, r in zip(c["seq"], run_shared(c["seq"])))
         return "|".join(ev2.strip_calls(ev2.answer(x, ev2.run_impl(x))) for x in c["seq"])
     return ev2.strip_calls(ev2.answer(c, ev2.run_impl(c)))
 
 
 def compare(c, a, b):
     return ev2.strip_calls(a) == ev2.strip_calls(b)
+
+
+def run_shared(seq):
+    from ..dsl import Rule
+    import cellpylib as cpl
+    inner = Rule(seq[0]["rule"], 1)
+
+    def shared(n, c, t):
+        return inner(n, c, t)
+    runs = []
+    for x in seq:
+        ca = ev2.make_ca(x)
+        out = ev2.Run()
+        out.exc, out.res = None, None
+        try:
+            out.res = cpl.evolve2d(ca, timesteps=x["T"], apply_rule=shared, r=x["r"], neighbourhood=ev2.NB[x["nb"]],
+                                   memoize=ev2.memo_value(x["memo"]))
+        except Exception as e:  # noqa
+            out.exc = e
+        runs.append(out)
+    return runs
 
 
 def _one(x):
@@ -128,7 +165,7 @@ def _one(x):
 
 def oracle(c):
     if c["kind"] == "seq":
-        runs = [ev2.run_impl(x) for x in c["seq"]]
+        runs = run_shared(c["seq"]) if c.get("shared_rule") else [ev2.run_impl(x) for x in c["seq"]]
         for i, (x, m) in enumerate(zip(c["seq"], runs)):
             p = ev2.run_impl(x, memo="False")
             if m.exc is not None:
